@@ -136,13 +136,15 @@ pub struct WorldSpec {
     pub faults_until_ms: u64,
     pub entropy_seed: u64,
     pub aux_seed: u64,
+    #[serde(default)]
+    pub spawn_latency_us: u64,
 }
 
 impl WorldSpec {
     pub fn plain(seed: u64) -> WorldSpec {
         WorldSpec {
             horizon_ms: 3_000,
-            step_cap: 3_000_000,
+            step_cap: 1_000_000,
             wall_secs: 1_700_000_000,
             wall_nanos: 0,
             cost_scale: 1000,
@@ -157,6 +159,7 @@ impl WorldSpec {
             faults_until_ms: u64::MAX / 2_000_000,
             entropy_seed: seed ^ 0x5eed,
             aux_seed: seed ^ 0xa11,
+            spawn_latency_us: 0,
         }
     }
 
@@ -188,6 +191,7 @@ impl WorldSpec {
             entropy_seed: self.entropy_seed,
             aux_seed: self.aux_seed,
             stack_size: 1 << 20,
+            spawn_latency_us: self.spawn_latency_us,
         }
     }
 }
@@ -393,6 +397,11 @@ pub enum Action {
     /// deliver the signal when the scheduler has taken this many steps (a crash point of a baseline)
     SignalAtStep { step: u64, sig: i32 },
     CrashAtStep { step: u64 },
+    /// another program already holds this TCP port (no SO_REUSEPORT) / this UDP port
+    ForeignTcpListen { port: u16 },
+    ForeignUdpBind { port: u16 },
+    /// the server process runs out of file descriptors (accept fails with EMFILE) / gets them back
+    FdExhaustion { on: bool },
     WallStepMs(i64),
     WallSet { secs: u64, nanos: u32 },
     WallFreeze { secs: u64, nanos: u32 },
